@@ -54,7 +54,10 @@ TEXT.update({
                  'moves with the object.', 'note': NOTE},
  'C10': {'text': 'Narrower than the statement: std_allocator equality (equal iff same referenced stateful allocator object; memory from one is released to the same '
                  'leaf through an equal copy) and the node/array decision of std_allocator::allocate/deallocate for element types of size/alignment (1,1) (3,1) (24,8) (48,16). '
-                 'Real libstdc++ container code (rebalancing, rehash, list surgery in libstdc++.so) is outside the claim.', 'note': NOTE},
+                 'Real libstdc++ code of std::vector, std::forward_list and std::list on std_allocator over two recording leaf allocators is executed symbolically for '
+                 'enumerated operation sequences (push, pop, clear, copy/move assignment, swap, copy/move construction, destruction) with the second container bound to the '
+                 'same or the other allocator object: every release goes to the allocator object that served it with matching parameters, nothing is outstanding at the '
+                 'end, node requests stay within X_node_size<T>. Associative / unordered containers, deque and string (algorithms inside libstdc++.so) are outside the claim.', 'note': NOTE + ' std::list hook/unhook/transfer/swap are 5-line models.'},
 })
 TEXT.update({
  'C11': {'text': 'allocate_joint over a recording leaf with symbolic additional size (0..64, exact fit included), two member arrays of symbolic lengths and a '
